@@ -13,5 +13,8 @@ open ColumnVerif.Skel
 theorem dict_version_matches : ColumnVerif.Generated.dictVersion = expectedDictVersion := by decide +kernel
 theorem flag_snapshotProtocol : snapshotProtocol = true := by decide +kernel
 theorem flag_openCleansOnCasFailure : openCleansOnCasFailure = true := by decide +kernel
+/-- `readChunk` releases the chunk read latch and the collection lock by `defer`: an error returned by the
+    writer callback cannot leak them -/
+theorem flag_snapReadLocked : snapReadLocked = true := by decide +kernel
 
 end ColumnVerif.Props.C14skel
